@@ -1,0 +1,35 @@
+//go:build verif
+
+package verifhooks
+
+import (
+	"context"
+
+	"github.com/sourcegraph/zoekt/internal/tenant"
+	"github.com/sourcegraph/zoekt/internal/tenant/systemtenant"
+)
+
+// TenantHasAccess is internal/tenant.HasAccess.
+func TenantHasAccess(ctx context.Context, id int) bool { return tenant.HasAccess(ctx, id) }
+
+// TenantSetEnforcementMode sets the enforcement mode ("strict" enables enforcement) and returns the old mode.
+func TenantSetEnforcementMode(mode string) string { return tenant.VerifSetEnforcementMode(mode) }
+
+// TenantContext returns a context for tenant id (id >= 1).
+func TenantContext(ctx context.Context, id int) (context.Context, error) {
+	return tenant.VerifWithTenant(ctx, id)
+}
+
+// TenantSystemContext is systemtenant.WithUnsafeContext.
+func TenantSystemContext(ctx context.Context) context.Context {
+	return systemtenant.WithUnsafeContext(ctx)
+}
+
+// TenantFromContext returns the tenant id carried by ctx, or (0, false).
+func TenantFromContext(ctx context.Context) (int, bool) {
+	t, err := tenant.FromContext(ctx)
+	if err != nil {
+		return 0, false
+	}
+	return t.ID(), true
+}
